@@ -40,25 +40,41 @@ def shifted(g, m):
     return h
 
 
-def pattern_graph(pattern):
+def to_multi(g):
+    """A simple Graph as the MultiGraph with the same nodes (order kept) and the same edges in G.edges() order,
+    every edge under key 0 (what the reference expander and the checkers read)."""
+    h = nx.MultiGraph()
+    for n in g._node:
+        h.add_node(n, **cm._deep(g._node[n]))
+    for u, v, d in g.edges(data=True):
+        h.add_edge(u, v, **cm._deep(d))
+    return h
+
+
+def pattern_graph(pattern, mg=True):
     """(MultiGraph of the pattern at offset 0, message or None). The message reports a violation of the
-    assumption  parse(pattern, idx_offset=m) == shift m (parse(pattern, 0))  (checked at offsets 3 and 17)."""
-    if pattern in _cache:
-        return _cache[pattern]
-    g = Parser(use_multigraph=True).parse(pattern)
+    assumption  parse(pattern, idx_offset=m) == shift m (parse(pattern, 0))  (checked at offsets 3 and 17).
+    mg=False: the pattern as Parser(use_multigraph=False) reads it, converted by to_multi."""
+    if (pattern, mg) in _cache:
+        return _cache[(pattern, mg)]
+    g = Parser(use_multigraph=mg).parse(pattern)
+    if not mg:
+        g = to_multi(g)
     msg = None
     for m in SHIFT_OFFSETS:
-        h = Parser(use_multigraph=True).parse(pattern, idx_offset=m)
+        h = Parser(use_multigraph=mg).parse(pattern, idx_offset=m)
+        if not mg:
+            h = to_multi(h)
         if not cm.identical(h, shifted(g, m)):
-            msg = "parser offset assumption fails for pattern %r at idx_offset=%d" % (pattern, m)
-    _cache[pattern] = (g, msg)
-    return _cache[pattern]
+            msg = "parser offset assumption fails for pattern %r at idx_offset=%d (use_multigraph=%s)" % (pattern, m, mg)
+    _cache[(pattern, mg)] = (g, msg)
+    return _cache[(pattern, mg)]
 
 
-def shift_messages(cfg):
+def shift_messages(cfg, mg=True):
     msgs = []
     for p in all_patterns(cfg):
-        m = pattern_graph(p)[1]
+        m = pattern_graph(p, mg)[1]
         if m:
             msgs.append(m)
     return msgs
@@ -90,13 +106,15 @@ def _pgraph(pg, what):
     return [pg.pattern, _ints(pg.anchor, what)]
 
 
-def dump_proxy(proxy):
+def dump_proxy(proxy, any_parser=False):
     """cfg dict of a live Proxy object; raises Unexpected on anything outside the modelled domain
-    (custom samplers, unique group samplers, non-default parser, shared core graph objects)."""
+    (custom samplers, unique group samplers, non-default parser unless any_parser, shared core graph objects)."""
     if not isinstance(proxy, Proxy):
         raise Unexpected("not a Proxy")
     parser = proxy.parser
-    if type(parser) is not Parser or parser.use_multigraph is not True or parser.init_aam is not False:
+    if type(parser) is not Parser:
+        raise Unexpected("parser is not a fgutils Parser")
+    if not any_parser and (parser.use_multigraph is not True or parser.init_aam is not False):
         raise Unexpected("parser is not the default Parser(use_multigraph=True)")
     core = proxy.core
     if type(core) is not ProxyGroup or type(core.sampler) is not GraphSampler or core.sampler.unique is not True:
@@ -189,24 +207,31 @@ def cmgraph(g):
     return "(%s : mgraph)" % ct.lst(entries)
 
 
-def pgraph_term(p, anchors):
-    g, _ = pattern_graph(p)
+def pgraph_term(p, anchors, mg=True):
+    g, _ = pattern_graph(p, mg)
     return "(mkPG %s %s)" % (cmgraph(g), ct.lst([ct.z(a) for a in anchors]))
 
 
-def groups_term(groups):
+def groups_term(groups, mg=True):
     items = []
     for key, name, graphs in groups:
-        items.append("(%s, mkGrp %s %s)" % (ct.s(key), ct.s(name), ct.lst([pgraph_term(p, a) for p, a in graphs])))
+        items.append("(%s, mkGrp %s %s)" % (ct.s(key), ct.s(name), ct.lst([pgraph_term(p, a, mg) for p, a in graphs])))
     return "(%s : groups)" % ct.lst(items)
 
 
-def cfg_term(cfg):
-    return "(mkCfg %s %s %s)" % (ct.lst([pgraph_term(p, a) for p, a in cfg["core"]]), groups_term(cfg["groups"]),
+def cfg_term(cfg, mg=True):
+    return "(mkCfg %s %s %s)" % (ct.lst([pgraph_term(p, a, mg) for p, a in cfg["core"]]), groups_term(cfg["groups"], mg),
                                  ct.b(cfg["aam"]))
 
 
-def build_proxy(cfg, cls=Proxy, how="dict"):
+def make_parser(spec):
+    """spec = None (the proxy's default) or [use_multigraph, init_aam]"""
+    if spec is None:
+        return None
+    return Parser(use_multigraph=bool(spec[0]), init_aam=bool(spec[1]))
+
+
+def build_proxy(cfg, cls=Proxy, how="dict", parser=None):
     """A fresh proxy object for a cfg dict. how: 'dict' (groups as dict under their keys, core as a
     unique ProxyGroup), 'list' (groups as list, needs key == name), 'plain' (core as pattern strings,
     needs default anchors), 'single' (one group passed bare)."""
@@ -224,7 +249,9 @@ def build_proxy(cfg, cls=Proxy, how="dict"):
         core = pats[0] if len(pats) == 1 else pats
     else:
         core = ProxyGroup("__core__", [ProxyGraph(p, anchor=list(a)) for p, a in cfg["core"]], unique=True)
-    return cls(core, gl, enable_aam=cfg["aam"])
+    if cls.__name__ == "MolProxy":
+        return cls(core, gl, parser=make_parser(parser))
+    return cls(core, gl, enable_aam=cfg["aam"], parser=make_parser(parser))
 
 
 def count_formula(cfg, limit=10 ** 9):
